@@ -403,7 +403,7 @@ func cmdCheck(args []string) int {
 		"coverage": map[string]interface{}{
 			"obligations":              total,
 			"discharged":               discharged,
-			"checker_cmd":              fmt.Sprintf("./check %s --tier %s  (govc: go/ssa symbolic execution against contracts in /repo/*/verif_contracts.go; z3 4.8.12, z3 5.1.0, cvc5 1.0 raced per obligation, %ds limit)", id, secs),
+			"checker_cmd":              fmt.Sprintf("./check %s --tier %s  (govc: go/ssa symbolic execution against contracts in /repo/*/verif_contracts.go; z3 4.8.12, z3 5.1.0, cvc5 1.0 raced per obligation, %ds limit)", id, *tier, secs),
 			"trusted_base":             tb,
 			"functions_under_contract": funcsUnder,
 			"by_backend":               byBackend,
